@@ -2,10 +2,14 @@
 """For every seeded change under /verif/seeded/<id>/: apply it to /repo, run every claimed quick check, revert.
 Writes seeded/MATRIX.json and the 'detected_by' field of each meta.json.  Usage: tools/seed_matrix.py [seed ids...]"""
 import json, os, subprocess, sys
-os.chdir('/verif')
+BASE = os.path.dirname(os.path.dirname(os.path.abspath(__file__)))      # works from a snapshot copy of /verif as well
+os.chdir(BASE)
 m = json.load(open('MANIFEST.json'))
 checks = [(c['property_id'], c['quick_cmd']) for c in m['checks']]
-seeds = sys.argv[1:] or sorted(d for d in os.listdir('seeded') if os.path.exists('seeded/%s/patch.diff' % d))
+args = [a for a in sys.argv[1:] if not a.startswith('--')]
+only = [a[len('--checks='):].split(',') for a in sys.argv[1:] if a.startswith('--checks=')]
+if only: checks = [c for c in checks if c[0] in only[0]]
+seeds = args or sorted(d for d in os.listdir('seeded') if os.path.exists('seeded/%s/patch.diff' % d))
 mpath = 'seeded/MATRIX.json'
 matrix = json.load(open(mpath)) if os.path.exists(mpath) else {}
 # a scratch worktree of /repo's HEAD outside /repo and /verif (so that /repo itself stays untouched while this runs);
@@ -25,16 +29,17 @@ for sid in seeds:
     try:
         for pid, cmd in checks:
             r = subprocess.run(cmd, shell=True, capture_output=True, text=True, env=env)
+            sys.stdout.flush()
             lines = [l for l in r.stdout.splitlines() if l.startswith(pid + ' [')]
             row[pid] = {'exit': r.returncode, 'first': lines[0][:300] if lines else ([l for l in r.stdout.splitlines() if 'ANALYSIS-BROKEN' in l] or [''])[0][:300]}
     finally:
         subprocess.run(['git', '-C', WT, 'checkout', '--', '.'])
-    matrix[sid] = row
+    matrix.setdefault(sid, {}).update(row); row = matrix[sid]
     det = [p for p, v in row.items() if v['exit'] == 1]
     meta = json.load(open(d + '/meta.json'))
     meta['detected_by'] = {p: row[p]['first'] for p in det} or 'NOT DETECTED by any claimed check at the time of the last matrix run'
     meta['broken_under'] = [p for p, v in row.items() if v['exit'] == 2]
     json.dump(meta, open(d + '/meta.json', 'w'), indent=1)
-    print(sid, 'detected by', det, 'broken', meta['broken_under'])
+    print(sid, 'detected by', det, 'broken', meta['broken_under'], flush=True)
     json.dump(matrix, open(mpath, 'w'), indent=1)
 print('done')
